@@ -40,7 +40,8 @@ EXTS = []
 RULE = ("random topologies (1-3 chains with explicit/absent/empty/2-char chain ids, 0-3 residues per chain with "
         "repeated resSeq incl. 0 and negative, default resSeq, long names, segment ids, 0-4 atoms per residue with "
         "duplicate names, virtual sites, absent/non-contiguous/duplicate/large serials, occasionally built out of "
-        "chain order; typed/ordered/duplicate bonds across residues and chains; in a quarter of the cases a second "
+        "chain order; residue names from the PDB writer's standard list (ALA, GLY, HOH, DA, CYS, with atom names the "
+        "reader's tables do not know) next to hetero names; typed/ordered/duplicate bonds across residues and chains; in a quarter of the cases a second "
         "independent topology, in another quarter a twin differing in at most one attribute or in bond insertion order) "
         "followed by 1-7 ops from "
         "{copy, copy.copy, deepcopy, Trajectory slice, pickle, subset(list/array/atom_slice), join/stack(keep_resSeq), "
@@ -77,7 +78,9 @@ DESC = {
                  "(a later save_pdb of a single-chain topology then raises ValueError)",
 }
 
-RES_NAMES = ["LIG", "XXA", "UNK", "MOL", "LONGN", "AB", "LIG"]
+RES_NAMES = ["LIG", "XXA", "UNK", "MOL", "LONGN", "AB", "LIG", "ALA", "GLY", "HOH", "DA", "CYS"]
+STD_NAMES = {"ALA", "GLY", "HOH", "DA", "CYS"}        # names in the PDB writer's standardResidues list
+SAFE_ATOM_NAMES = ["C1", "C2", "M", "S1", "X9", "C1"]   # names the PDB reader's tables do not know
 ATOM_NAMES = ["C1", "C2", "N", "O", "H", "H", "CA", "HX12L", "M", "S1"]
 ELEMS = ["C", "N", "O", "H", "S", "VS", "VS0", "Cl"]
 CHAIN_IDS = [None, None, "A", "B", "X", "", "QR", "A"]
@@ -99,7 +102,9 @@ def gen_base(rng, slot, out_of_order):
     for c in range(nch):
         ops.append(["add_chain", slot, rng.choice(CHAIN_IDS)])
         for _ in range(rng.choice([0, 1, 1, 2, 2, 3])):
-            ops.append(["add_residue", slot, c, rng.choice(RES_NAMES), rng.choice(RESSEQS), rng.choice(SEGS)])
+            rname = rng.choice(RES_NAMES)
+            ops.append(["add_residue", slot, c, rname, rng.choice(RESSEQS), rng.choice(SEGS)])
+            pool = SAFE_ATOM_NAMES if rname in STD_NAMES else ATOM_NAMES
             rp = nres
             nres += 1
             res_list.append(rp)
@@ -111,7 +116,7 @@ def gen_base(rng, slot, out_of_order):
                 if serial is not None and rng.random() < 0.85:
                     ser = serial
                     serial += rng.choice([0, 1, 1, 1, 2, 7])
-                ops.append(["add_atom", slot, tgt, rng.choice(ATOM_NAMES), rng.choice(ELEMS), ser])
+                ops.append(["add_atom", slot, tgt, rng.choice(pool), rng.choice(ELEMS), ser])
                 natoms += 1
     if natoms >= 2:
         for _ in range(rng.choice([0, 1, 2, 3, 5, 8])):
@@ -599,6 +604,110 @@ def check_cases(ctx, cases, det):
                    "%d case(s) not reproduced by the model; smallest: %s" % (len(unexplained), outs[i]["ops"]))
 
 
+# ---------------------------------------------------------------------------- PDB bond-graph oracle (standard residues)
+# Outside the Coq model (the reader's residues.xml / pdbNames.xml machinery is not modelled): a direct oracle on
+# the implementation.  Topologies mix standard residues (amino acids, water, nucleotides; atom names from mdtraj's
+# residues.xml) with hetero residues; bonds: the standard ones (create_standard_bonds: inside residues and the
+# peptide/backbone links, regenerated by the reader), disulfides, standard-hetero and hetero-hetero, within and
+# across chains.  Oracle: the set of bonded index pairs after save_pdb + load_pdb equals the set before.
+# What the PDB carrier cannot hold and is therefore excluded or ignored: bond type/order and duplicate bonds
+# (compared as a set of pairs); bonds between two standard residues that are neither standard bonds nor SG-SG
+# (the writer never lists them: not generated); residues merge when consecutive (resSeq, name) repeat and chains
+# merge when ids repeat without TER (distinct resSeq, distinct chain ids); serials are left unset.
+PDB_STD = ["ALA", "ASN", "CYS", "GLY", "HOH", "DA", "A", "CYS", "ASN"]
+PDB_HET = ["NAG", "LIG", "ZN", "MAN", "UNL", "FUC"]
+HET_ATOMS = {"ZN": ["ZN"], "default": ["C1", "C2", "O5", "N2", "C3"]}
+
+
+def gen_pdbgraph(rng, tables, allow_no_ter, max_partners):
+    std_atoms, hetero = tables["std_atoms"], tables["hetero_ok"]
+    chains = []
+    atoms = []          # (chain, res index global, resname, atomname, is_std)
+    resseq = rng.choice([1, 11, 100])
+    nres = 0
+    ids = rng.sample(["A", "B", "C", "D", "X"], 4)
+    use_ids = rng.random() < 0.7
+    for ci in range(rng.choice([1, 2, 2, 3])):
+        res = []
+        for _ in range(rng.choice([1, 2, 3, 4])):
+            if rng.random() < 0.6:
+                name = rng.choice([n for n in PDB_STD if n in std_atoms])
+                k = rng.randint(2, min(9, len(std_atoms[name])))
+                names = std_atoms[name][:k]
+                if name == "CYS" and "SG" not in names:
+                    names = names + ["SG"]
+                if name == "ASN" and rng.random() < 0.5:
+                    names = [n for n in std_atoms[name] if n in ("N", "CA", "C", "O", "CB", "CG", "OD1", "ND2")]
+            else:
+                name = rng.choice(hetero)
+                pool = HET_ATOMS.get(name, HET_ATOMS["default"])
+                names = pool[:rng.randint(1, len(pool))]
+            res.append([name, resseq, names])
+            for an in names:
+                atoms.append((ci, nres, name, an, name in std_atoms))
+            resseq += rng.choice([1, 1, 2, 10])
+            nres += 1
+        chains.append({"id": ids[ci] if use_ids else None, "res": res})
+    n = len(atoms)
+    deg = [0] * n
+    bonds = []
+
+    def add(i, j):
+        if i != j and deg[i] < max_partners and deg[j] < max_partners and [min(i, j), max(i, j)] not in bonds:
+            bonds.append([min(i, j), max(i, j)])
+            deg[i] += 1
+            deg[j] += 1
+    std = [i for i, a in enumerate(atoms) if a[4]]
+    het = [i for i, a in enumerate(atoms) if not a[4]]
+    sg = [i for i, a in enumerate(atoms) if a[2] == "CYS" and a[3] == "SG"]
+    for _ in range(rng.choice([0, 1, 2])):                      # standard - hetero (any residues, any chains)
+        if std and het:
+            add(rng.choice(std), rng.choice(het))
+    if std and het and rng.random() < 0.5:                       # the glycan-like link from a side chain
+        side = [i for i in std if atoms[i][3] in ("ND2", "SG", "CB", "O", "N9")]
+        if side:
+            add(rng.choice(side), rng.choice(het))
+    for _ in range(rng.choice([0, 1, 2, 3])):                    # hetero - hetero, inside and across residues/chains
+        if len(het) >= 2:
+            add(*rng.sample(het, 2))
+    if len(sg) >= 2 and rng.random() < 0.7:                      # disulfide
+        i, j = rng.sample(sg, 2)
+        if atoms[i][1] != atoms[j][1]:
+            add(i, j)
+    return {"chains": chains, "bonds": bonds, "std_bonds": True,
+            "ter": True if not allow_no_ter else rng.random() < 0.7, "standard_names": rng.random() < 0.7}
+
+
+def check_pdbgraph(ctx, specs):
+    res = ctx.run_impl("topo_impl.py", {"pdbgraph": specs})["pdbgraph"]
+    for spec, r in zip(specs, res):
+        kinds = set()
+        names = [nm for ch in spec["chains"] for nm, _rs, ans in ch["res"] for _a in ans]
+        for i, j in spec["bonds"]:
+            a, b = names[i] in PDB_STD, names[j] in PDB_STD
+            kinds.add("std-het" if a != b else ("std-std" if a else "het-het"))
+        ctx.count({"pdbgraph": spec}, nontrivial=bool(spec["bonds"]), bucket="pdbgraph/" + ("+".join(sorted(kinds)) or "standard-only"))
+        if "error" in r:
+            ctx.fail("PDB save/load of a topology with standard and hetero residues raises", {"pdbgraph": spec}, observed=r,
+                     expected="a round trip", tags={"defect": "pdb_bond_graph"})
+        elif r["before"] != r["after"] or [a[:2] + a[3:] for a in r["atoms_before"]] != [a[:2] + a[3:] for a in r["atoms_after"]]:
+            lost = [p for p in r["before"] if p not in r["after"]]
+            extra = [p for p in r["after"] if p not in r["before"]]
+            ctx.fail("PDB save/load does not preserve the bond graph (standard + hetero residues)", {"pdbgraph": spec},
+                     observed={"lost": lost, "invented": extra, "atoms_after": r["atoms_after"]},
+                     expected="the set of bonded atom-index pairs and the atom/residue/chain listing before the save",
+                     tags={"defect": "pdb_bond_graph"})
+
+
+def pdbgraph_stream(ctx, det):
+    tables = ctx.run_impl("topo_impl.py", {"pdb_tables": [sorted(set(PDB_STD)), PDB_HET]})["tables"]
+    n = 150 if ctx.tier == "quick" else 3000
+    # as found, CONECT numbering is wrong without TER lines and hubs lose bonds: keep those axes for repaired trees
+    specs = [gen_pdbgraph(ctx.rng, tables, det["conect_num"], 3 if det["conect_del"] else 2) for _ in range(n)]
+    ctx.notes.setdefault("coverage_extra", {})["pdb_bond_graph_oracle_cases"] = n
+    check_pdbgraph(ctx, specs)
+
+
 def build_cases(ctx):
     rng = ctx.rng
     quick = ctx.tier == "quick"
@@ -628,6 +737,7 @@ def correspond(ctx):
     chunk = 1000
     for i in range(0, len(cases), chunk):
         check_cases(ctx, cases[i:i + chunk], det)
+    pdbgraph_stream(ctx, det)
 
 
 def search(ctx, broken):
@@ -641,4 +751,7 @@ def replay(ctx, rec):
     if det is None:
         return
     c = rec["case"]
+    if "pdbgraph" in c:
+        check_pdbgraph(ctx, [c["pdbgraph"]])
+        return
     check_cases(ctx, [{"ops": c["ops"], "concrete": True}], det)
